@@ -2,6 +2,7 @@ package c03
 
 import (
 	"fmt"
+	"net"
 	"sync"
 	"sync/atomic"
 	"time"
@@ -365,5 +366,112 @@ func genPendingDials(t *rapid.T) PendingDials {
 		c.TimeoutMs = append(c.TimeoutMs, rapid.SampledFrom([]int{0, 0, 20, 100, 30000}).Draw(t, "timeout"))
 	}
 	c.WaitMs = rapid.SampledFrom([]int{0, 1, 30, 150}).Draw(t, "wait")
+	return c
+}
+
+// DialTimers: asynchronous dials with a timeout that succeed (loop-back listener that accepts). The timeout
+// belongs to the dial: once the connection is established nothing of it may be left, so the connection
+// stays open and usable well beyond the timeout.
+type DialTimers struct {
+	Mode          string `json:"mode"`
+	NPoller       int    `json:"npoller"`
+	Dials         int    `json:"dials"`
+	TimeoutMs     int    `json:"timeout_ms"`
+	YieldPerMille int    `json:"yield_per_mille,omitempty"`
+}
+
+func runDialTimers(c DialTimers) vlib.Result {
+	defer vlib.Yield(c.YieldPerMille, 0xd1a1)()
+	vlib.Logs.Take()
+	res := vlib.Result{Classes: []string{"dial-timers", "mode=" + c.Mode}}
+	conf := nbio.Config{NPoller: c.NPoller}
+	vlib.ApplyMode(&conf, c.Mode)
+	g := nbio.NewEngine(conf)
+	var mu sync.Mutex
+	closes := map[*nbio.Conn]error{}
+	g.OnClose(func(nc *nbio.Conn, err error) { mu.Lock(); closes[nc] = err; mu.Unlock() })
+	if err := g.Start(); err != nil {
+		return vlib.Fail("harness: engine start: %v", err)
+	}
+	defer vlib.StopEngine(g.Stop, 10*time.Second)
+	ln, err := net.Listen("tcp", "127.0.0.1:0")
+	if err != nil {
+		return vlib.Fail("harness: listen: %v", err)
+	}
+	defer ln.Close()
+	var amu sync.Mutex
+	var accepted []net.Conn
+	go func() {
+		for {
+			p, err := ln.Accept()
+			if err != nil {
+				return
+			}
+			amu.Lock()
+			accepted = append(accepted, p)
+			amu.Unlock()
+		}
+	}()
+	defer func() {
+		amu.Lock()
+		for _, p := range accepted {
+			p.Close()
+		}
+		amu.Unlock()
+	}()
+	timeout := time.Duration(c.TimeoutMs) * time.Millisecond
+	var cmu sync.Mutex
+	var conns []*nbio.Conn
+	var failed int32
+	var cbs int32
+	for i := 0; i < c.Dials; i++ {
+		err := g.DialAsyncTimeout("tcp", ln.Addr().String(), timeout, func(nc *nbio.Conn, err error) {
+			atomic.AddInt32(&cbs, 1)
+			if err != nil {
+				atomic.AddInt32(&failed, 1)
+				return
+			}
+			cmu.Lock()
+			conns = append(conns, nc)
+			cmu.Unlock()
+		})
+		if err != nil {
+			return vlib.Fail("harness: DialAsyncTimeout: %v", err)
+		}
+	}
+	if !vlib.WaitUntil(3*time.Second, func() bool { return atomic.LoadInt32(&cbs) == int32(c.Dials) }) {
+		res.Err = fmt.Errorf("%d of %d dial callbacks ran within 3 s (loop-back listener that accepts)", atomic.LoadInt32(&cbs), c.Dials)
+		return res
+	}
+	if n := atomic.LoadInt32(&failed); n > 0 {
+		// a loaded machine may make a 100 ms dial time out for real: nothing to say about those
+		res.Classes = append(res.Classes, "some-dials-failed (not asserted)")
+	}
+	// established: idle beyond the dial timeout
+	time.Sleep(timeout + 150*time.Millisecond)
+	cmu.Lock()
+	defer cmu.Unlock()
+	mu.Lock()
+	defer mu.Unlock()
+	for i, nc := range conns {
+		if err, was := closes[nc]; was {
+			res.Err = fmt.Errorf("connection %d of %d was established by DialAsyncTimeout(%v) and then left alone; %v after the dial it has been closed with %q: something of the dial's timeout outlived the dial", i, len(conns), timeout, timeout+150*time.Millisecond, fmt.Sprint(err))
+			return res
+		}
+		if _, err := nc.Write([]byte("still usable")); err != nil {
+			res.Err = fmt.Errorf("connection %d established by DialAsyncTimeout(%v): Write failed %v after the dial: %v", i, timeout, timeout+150*time.Millisecond, err)
+			return res
+		}
+	}
+	res.NonTrivial = len(conns) > 0
+	return res
+}
+
+func genDialTimers(t *rapid.T) DialTimers {
+	c := DialTimers{Mode: rapid.SampledFrom(vlib.Modes).Draw(t, "mode"), NPoller: rapid.IntRange(1, 3).Draw(t, "npoller"), Dials: rapid.SampledFrom([]int{1, 4, 16}).Draw(t, "dials"),
+		TimeoutMs: rapid.SampledFrom([]int{100, 200}).Draw(t, "timeout")}
+	if vlib.YieldAvailable {
+		c.YieldPerMille = rapid.SampledFrom([]int{0, 100, 300}).Draw(t, "yield")
+	}
 	return c
 }
